@@ -118,6 +118,8 @@ var asgUniverse = []string{
 	"(nm 0 %C3%84 (sl int))",
 	// channel directions: `chan int` can be passed for `<-chan int` / `chan<- int`, not the other way round
 	"(chr int)", "(chs int)", "(nm 0 CR (chr int))", "(chr (ch int))",
+	// field tags are part of a struct type's identity (and of assignability)
+	"(stt id int)", "(stt ID int)", "(sl (st int))", "(sl (stt id int))", "(p (stt id int))", "(nm 0 ST (stt id int))",
 }
 
 // interface types next to types that implement them (0b79109: a type that merely implements an interface
@@ -323,6 +325,7 @@ func T3Lines(r *rand.Rand, thorough bool) ([]string, T3Stats) {
 	g.random("tm-rnd-iface", ifaceUniverse, 3000*n)
 	g.exhaustive("tm-exh-iface", []string{"error", "(p (nmm 0 MyErr (st int) Error))", "iface"}, k-1)
 	g.exhaustive("tm-exh-chan", []string{"(ch int)", "(chr int)", "(nm 0 C (ch int))"}, k)
+	g.exhaustive("tm-exh-tags", []string{"(sl (st int))", "(sl (stt id int))", "(nm 0 S (st int))"}, k-1)
 	g.sorts(400 * n)
 	g.eqs(1000 * n)
 	g.imports(300 * n)
